@@ -448,6 +448,143 @@ theorem mask_exact_plain_after_reset (c : Cache) (b : List Tok) (ids : List Nat)
   rw [he]
   exact visibleE_true _ _ _ _
 
+/-! ### `Remove` of the tree under test (`removeV`): pinned, or repaired so that errors change nothing (F28) -/
+
+theorem remove_fields (c : Cache) (seq : Nat) (b e : Int) :
+    (Causal.remove c seq b e).1.v = c.v ∧ (Causal.remove c seq b e).1.window = c.window ∧
+    (Causal.remove c seq b e).1.hasLayers = c.hasLayers ∧
+    (c.hasLayers = false → (Causal.remove c seq b e).1.rows = c.rows) := by
+  unfold Causal.remove
+  simp only
+  split
+  · exact ⟨rfl, rfl, rfl, fun _ => rfl⟩
+  · split
+    · exact ⟨rfl, rfl, rfl, fun _ => rfl⟩
+    · split
+      · exact ⟨rfl, rfl, rfl, fun _ => rfl⟩
+      · split
+        · exact ⟨rfl, rfl, rfl, fun _ => rfl⟩
+        · exact ⟨rfl, rfl, rfl, fun hl => by simp [hl]⟩
+
+theorem removeGuard_not_ok (c : Cache) (seq : Nat) (b e : Int) (r : Rm) (h : removeGuard c seq b e = some r) :
+    r ≠ .ok := by
+  unfold removeGuard at h
+  split at h
+  · cases h; decide
+  · split at h
+    · cases h; decide
+    · cases h
+
+/-- the tree's `Remove` is the pinned one, or (repaired, refused) it leaves the cache untouched -/
+theorem removeV_cases (c : Cache) (seq : Nat) (b e : Int) :
+    removeV c seq b e = Causal.remove c seq b e ∨
+    ((removeV c seq b e).1 = c ∧ (removeV c seq b e).2 ≠ .ok ∧ c.v.atomicRemove = true) := by
+  unfold removeV
+  split
+  · rename_i hat
+    cases hg : removeGuard c seq b e with
+    | none => exact Or.inl rfl
+    | some r => exact Or.inr ⟨rfl, removeGuard_not_ok c seq b e r hg, hat⟩
+  · exact Or.inl rfl
+
+theorem removeV_inv (c : Cache) (seq : Nat) (b e : Int) (h : Inv c) : Inv (removeV c seq b e).1 := by
+  rcases removeV_cases c seq b e with h1 | ⟨h1, _, _⟩
+  · rw [h1]; exact remove_inv c seq b e h
+  · rw [h1]; exact h
+
+theorem removeV_fields (c : Cache) (seq : Nat) (b e : Int) :
+    (removeV c seq b e).1.v = c.v ∧ (removeV c seq b e).1.window = c.window ∧
+    (removeV c seq b e).1.hasLayers = c.hasLayers ∧
+    (c.hasLayers = false → (removeV c seq b e).1.rows = c.rows) := by
+  rcases removeV_cases c seq b e with h1 | ⟨h1, _, _⟩
+  · rw [h1]; exact remove_fields c seq b e
+  · rw [h1]; exact ⟨rfl, rfl, rfl, fun _ => rfl⟩
+
+/-- an accepted removal is the pinned `Remove` (the repair only changes what errors leave behind) -/
+theorem removeV_ok_eq (c : Cache) (seq : Nat) (b e : Int) (hok : (removeV c seq b e).2 = .ok) :
+    removeV c seq b e = Causal.remove c seq b e := by
+  rcases removeV_cases c seq b e with h1 | ⟨_, h2, _⟩
+  · exact h1
+  · exact absurd hok h2
+
+theorem rangeFrom_none (p : Nat → Cell → Bool) (i : Nat) (cells : List Cell) (r : Range)
+    (h : ∀ k (hk : k < cells.length), p (i + k) cells[k] = false) : rangeFrom p i cells r = r := by
+  induction cells generalizing i r with
+  | nil => rfl
+  | cons x xs ih =>
+    have h0 := h 0 (by simp)
+    simp only [List.getElem_cons_zero, Nat.add_zero] at h0
+    rw [rangeFrom, h0]
+    simp only [Bool.false_eq_true, if_false]
+    apply ih
+    intro k hk
+    have := h (k + 1) (by simpa using hk)
+    simp only [List.getElem_cons_succ] at this
+    rw [show i + 1 + k = i + (k + 1) by omega]
+    exact this
+
+/-- when the repaired `Remove`'s checks pass, the removal is carried out without error -/
+theorem remove_ok_of_guard_none (c : Cache) (seq : Nat) (b e : Int) (hg : removeGuard c seq b e = none) :
+    (Causal.remove c seq b e).2 = .ok := by
+  unfold removeGuard at hg
+  split at hg
+  · cases hg
+  · rename_i h1
+    split at hg
+    · cases hg
+    · rename_i h2
+      have hflag : (removeCells seq b e (rmOffset b e) c.cells).2 = false := by
+        rw [removeCells_flag]
+        simpa [refuseCell] using h1
+      unfold Causal.remove
+      simp only [hflag, Bool.false_eq_true, if_false]
+      split
+      · rfl
+      · rename_i hrg
+        split
+        · rfl
+        · rename_i hne
+          split
+          · rename_i hns
+            exfalso
+            apply hrg
+            -- nothing of `seq` remains
+            have hrem : c.cells.any (fun x => decide (seq ∈ x.seqs) && !(decide (b ≤ x.pos ∧ x.pos < e))) = false := by
+              cases hany : c.cells.any (fun x => decide (seq ∈ x.seqs) && !(decide (b ≤ x.pos ∧ x.pos < e))) with
+              | false => rfl
+              | true =>
+                exfalso; apply h2
+                simp only [hany, Bool.true_and, Bool.and_eq_true, decide_eq_true_eq]
+                exact ⟨hne, hns⟩
+            rw [removeCells_ok _ _ _ _ _ hflag]
+            unfold rangeOf
+            apply rangeFrom_none
+            intro k hk
+            simp only [List.length_map] at hk
+            simp only [List.getElem_map, hasSeq, decide_eq_false_iff_not]
+            have hx := (List.any_eq_false.mp hrem) c.cells[k] (List.getElem_mem hk)
+            unfold rmCell
+            by_cases hs : seq ∈ c.cells[k].seqs
+            · by_cases hin : b ≤ c.cells[k].pos ∧ c.cells[k].pos < e
+              · rw [if_pos hs, if_pos hin]
+                exact mem_filter_ne
+              · exfalso; apply hx; simp [hs, hin]
+            · simp [hs]
+          · rfl
+
+/-- **The repaired `Remove` is atomic** (F28): whenever it reports an error, the cache — cells, ranges,
+    rows, everything — is exactly as before, so the history every sequence is shown afterwards is the one
+    before the refused call. -/
+theorem removeV_error_unchanged (c : Cache) (seq : Nat) (b e : Int) (hat : c.v.atomicRemove = true)
+    (herr : (removeV c seq b e).2 ≠ .ok) : (removeV c seq b e).1 = c := by
+  unfold removeV at herr ⊢
+  simp only [hat, if_true] at herr ⊢
+  cases hg : removeGuard c seq b e with
+  | some r => rfl
+  | none =>
+    simp only [hg] at herr
+    exact absurd (remove_ok_of_guard_none c seq b e hg) herr
+
 /-- one operation of a cache history -/
 inductive HOp where
   | fwd (b : List Tok) (ids : List Nat)
@@ -460,7 +597,7 @@ inductive HOp where
 def stepH (c : Cache) : HOp → Cache
   | .fwd b ids => if (startForward c b).2 = .ok then put (startForward c b).1 ids else (startForward c b).1
   | .cp src dst len => Causal.copyPrefix c src dst len
-  | .rm seq b e => (Causal.remove c seq b e).1
+  | .rm seq b e => (removeV c seq b e).1
   | .sc ex => setCausal c ex
   | .rsv b => startReserve c b
 
@@ -478,7 +615,7 @@ theorem inv_run (c : Cache) (ops : List HOp) (h : Inv c) : Inv (ops.foldl stepH 
       · exact put_inv _ _ (startForward_inv c b h)
       · exact startForward_inv c b h
     | cp src dst len => exact copyPrefix_inv c src dst len h
-    | rm seq b e => exact remove_inv c seq b e h
+    | rm seq b e => exact removeV_inv c seq b e h
     | sc ex => exact setCausal_inv c ex h
     | rsv b => exact reserve_inv c b h
 
@@ -1271,15 +1408,7 @@ theorem stepH_v (c : Cache) (op : HOp) : (stepH c op).v = c.v := by
     · exact startForward_v c b
     · exact startForward_v c b
   | cp src dst len => rfl
-  | rm seq b e =>
-    simp only [stepH, Causal.remove]
-    split
-    · rfl
-    · split
-      · rfl
-      · split
-        · rfl
-        · split <;> rfl
+  | rm seq b e => exact (removeV_fields c seq b e).1
   | sc ex =>
     simp only [stepH, setCausal]
     split <;> rfl
@@ -1325,26 +1454,7 @@ theorem stepH_rowsFresh (c : Cache) (op : HOp) (h : RowsFresh c) : RowsFresh (st
     · exact startForward_rowsFresh c b h
   | cp src dst len => exact rowsFresh_of c _ h rfl (fun _ => rfl)
   | rm seq b e =>
-    apply rowsFresh_of c _ h
-    · simp only [stepH, Causal.remove]
-      split
-      · rfl
-      · split
-        · rfl
-        · split
-          · rfl
-          · split <;> rfl
-    · intro hl
-      simp only [stepH, Causal.remove]
-      split
-      · rfl
-      · split
-        · rfl
-        · split
-          · rfl
-          · split
-            · rfl
-            · simp [hl]
+    exact rowsFresh_of c _ h (removeV_fields c seq b e).2.2.1 (removeV_fields c seq b e).2.2.2
   | sc ex =>
     simp only [stepH, setCausal]
     split
@@ -1400,7 +1510,7 @@ def specStep (W : Option Int) (s : Spec) : HOp → Option Spec
     only considered once layer tensors exist — before the first `Put` there is no data to re-shift) -/
 def Succeeds (c : Cache) : HOp → Prop
   | .fwd b ids => (startForward c b).2 = .ok ∧ ids.length = b.length
-  | .rm seq b e => (Causal.remove c seq b e).2 = .ok ∧ c.hasLayers = true
+  | .rm seq b e => (removeV c seq b e).2 = .ok ∧ c.hasLayers = true
   | _ => True
 
 /-- **Refinement, one step**: every operation the cache accepts changes the abstract state exactly as the
@@ -1427,8 +1537,9 @@ theorem refines_step (c : Cache) (op : HOp) (h : Inv c) (hfix : c.v.fixDefrag = 
     exact hperm
   | cp src dst len => exact ⟨_, rfl, by simp only [stepH]; rw [copyPrefix_abs]⟩
   | rm seq b e =>
-    have := remove_abs c seq b e h.len h.size hs.2 hs.1
-    exact ⟨_, this, List.Perm.refl _⟩
+    have he := removeV_ok_eq c seq b e hs.1
+    have := remove_abs c seq b e h.len h.size hs.2 (by rw [← he]; exact hs.1)
+    exact ⟨_, this, by simp only [stepH]; rw [he]⟩
   | sc ex => exact ⟨_, rfl, by simp only [stepH]; rw [setCausal_abs]⟩
   | rsv b => exact ⟨_, rfl, List.Perm.refl _⟩
 
@@ -1517,15 +1628,7 @@ theorem stepH_window (c : Cache) (op : HOp) : (stepH c op).window = c.window := 
     · exact startForward_window c b
     · exact startForward_window c b
   | cp src dst len => rfl
-  | rm seq b e =>
-    simp only [stepH, Causal.remove]
-    split
-    · rfl
-    · split
-      · rfl
-      · split
-        · rfl
-        · split <;> rfl
+  | rm seq b e => exact (removeV_fields c seq b e).2.1
   | sc ex =>
     simp only [stepH, setCausal]
     split <;> rfl
@@ -2059,5 +2162,41 @@ example :
     (wStart [mk (some 4), mk none] b).2 = .full ∧
     (∀ c ∈ [mk (some 4), mk none], (∀ x ∈ c.cells, ∀ s ∈ x.seqs, x.pos < maxInt32) ∧
       (∀ x ∈ c.cells, ∀ t ∈ b, t.seq ∈ x.seqs → x.pos < t.pos)) := by decide
+
+/-! ### F28: a refused `Remove` (pinned) has already changed the cache -/
+
+/-- sequence 0 holds positions 0..3, all shared with sequence 1 (`CopyPrefix(0, 1, 4)`) -/
+def f28 (v : Variant) : Cache :=
+  Causal.copyPrefix (fwd (Causal.init v none 2 8 8 1 1 true) [(⟨0, 0⟩, 10), (⟨0, 1⟩, 11), (⟨0, 2⟩, 12), (⟨0, 3⟩, 13)]) 0 1 4
+
+/-- sequence 0 holds positions 0..3 on a cache without `shiftFn` -/
+def f28n (v : Variant) : Cache :=
+  fwd (Causal.init v none 1 8 8 1 1 false) [(⟨0, 0⟩, 10), (⟨0, 1⟩, 11), (⟨0, 2⟩, 12), (⟨0, 3⟩, 13)]
+
+/-- **F28 witness (`shared`).**  Pinned: `Remove(0, 1, 2)` must shift positions 2, 3, which sequence 1 shares —
+    it is refused (the spec refuses too), but position 1 had already been taken from sequence 0: the abstract
+    state changed and the next token of sequence 0 is shown a history with a hole.  Repaired: nothing changed. -/
+theorem F28_refused_remove_shared :
+    (removeV (f28 {}) 0 1 2).2 = .shared ∧ KV.remove (abs (f28 {})) 0 1 2 = none ∧
+    (visible none (abs (f28 {})) 0 4).map key = [(0, 10, 0), (1, 11, 0), (2, 12, 0), (3, 13, 0)] ∧
+    (visible none (abs (removeV (f28 {}) 0 1 2).1) 0 4).map key = [(0, 10, 0), (2, 12, 0), (3, 13, 0)] ∧
+    (removeV (f28 { atomicRemove := true }) 0 1 2).2 = .shared ∧
+    abs (removeV (f28 { atomicRemove := true }) 0 1 2).1 = abs (f28 { atomicRemove := true }) := by decide
+
+/-- **F28 witness (`notsup`).**  Pinned, no `shiftFn`: `Remove(0, 1, 2)` returns `ErrNotSupported` after the
+    metadata has been changed: positions 2, 3 are now labelled 1, 2 while their data was never re-shifted
+    (shift 0 where the spec's removal has −1).  Repaired: nothing changed. -/
+theorem F28_refused_remove_notsup :
+    (removeV (f28n {}) 0 1 2).2 = .notsup ∧
+    (abs (removeV (f28n {}) 0 1 2).1).map key = [(0, 10, 0), (1, 12, 0), (2, 13, 0)] ∧
+    (KV.remove (abs (f28n {})) 0 1 2).map (·.map key) = some [(0, 10, 0), (1, 12, -1), (2, 13, -1)] ∧
+    (removeV (f28n { atomicRemove := true }) 0 1 2).2 = .notsup ∧
+    abs (removeV (f28n { atomicRemove := true }) 0 1 2).1 = abs (f28n { atomicRemove := true }) := by decide
+
+/-- non-vacuity of `removeV_error_unchanged` / `remove_ok_of_guard_none` -/
+example :
+    (f28 { atomicRemove := true }).v.atomicRemove = true ∧ (removeV (f28 { atomicRemove := true }) 0 1 2).2 ≠ .ok ∧
+    removeGuard (f28 { atomicRemove := true }) 0 3 4 = none ∧ (removeV (f28 { atomicRemove := true }) 0 3 4).2 = .ok := by
+  decide
 
 end OllamaVerif.C06
